@@ -26,7 +26,7 @@ CanonicalOrderingVisitor is applied, and that no setting one follows.
 import ast
 
 from sa.core import rule, AnalysisError
-from sa.pyindex import get_module, dotted, src, walk_no_nested
+from sa.pyindex import get_module, dotted, src
 from sa import flow
 from rules._pytd_schema import get_schema, defs_at, NODE, SERIALIZE
 from rules import _util_c12c17c18 as U
@@ -235,7 +235,7 @@ def r12_7(ctx):
   """CanonicalOrderingVisitor sorts a tree whose equality-blind rendered
   fields are already in the state that gets encoded."""
   sch = get_schema(ctx)
-  key_line = _sort_key_uses_str(ctx)
+  _sort_key_uses_str(ctx)
   blind = equality_blind_rendered_fields(ctx)
   if not blind:
     raise AnalysisError(
@@ -292,7 +292,7 @@ def r12_7(ctx):
       out = set()
       for recv, v in applications(unit):
         if recv in lineage:
-          kind, where = effect(v, cname, field)
+          kind = effect(v, cname, field)[0]
           seen[v.split(".")[-1]] = kind
           if kind == "reset":
             out.add(fact)
@@ -318,7 +318,7 @@ def r12_7(ctx):
     ok = all(at_sort) and fact in at_ctor
     facts = dict(facts, visitors={k: v for k, v in sorted(seen.items())},
                  reset_when_sorted=all(at_sort), reset_when_encoded=fact in at_ctor,
-                 sort_key=f"{NODE}:{key_line} Node._ToTuple")
+                 sort_key="Node.__lt__ -> _ToTuple -> str() of every field")
     resetters = sorted(k for k, v in seen.items() if v == "reset")
     ctx.check(ok, f"SerializeAst:CanonicalOrderingVisitor:sorts-with-{cname}.{field}-reset",
               SERIALIZE, p.canon_stmts[0].lineno,
@@ -328,7 +328,7 @@ def r12_7(ctx):
               f"already be in the state that is encoded (reset by "
               f"{resetters or 'a resetting visitor'} on every path, nothing "
               "setting it afterwards).  Here the tree is sorted "
-              + ("with the pointers still set" if not all(at_sort)
+              + (f"before `{field}` is reset" if not all(at_sort)
                  else "and a visitor sets the field again afterwards")
               + ": the encoded, pointer-free tree is ordered by keys it no "
               "longer has, so the decoded AST is not canonically ordered and "
